@@ -734,6 +734,24 @@ def directed_schedules(base_cfg, toggles):
     return rows, found
 
 
+def _act(a, d="", n="", c=0):
+    return {"a": a, "d": d, "n": n, "c": c, "w": 1 if a in ("read", "fetch", "recv", "handle", "scan") else 0, "nd": [], "na": False}
+
+
+def pinned_auto_rows():
+    """Behaviours of CacheAuto written down by hand because random generation meets them only sometimes
+    (each recorded execution is validated against the specification like any other):
+    1. the Remove of the last file and the Remove of its directory queued back to back while the goroutine
+       waits for the mutex with the first one; the directory comes back with a file afterwards"""
+    h = [{"a": "init", "d": "", "n": "", "c": 0, "w": 1, "nd": ["A"], "na": True, "ex": ["A"]},
+         _act("createwrite", "A", "f.json", 1), _act("read"), _act("fetch"), _act("recv"), _act("handle"), _act("scan"),
+         _act("fetch"), _act("recv"), _act("handle"), _act("scan"), _act("query"),
+         _act("removefile", "A", "f.json"), _act("rmdir", "A"), _act("read"), _act("fetch"), _act("recv"), _act("fetch"),
+         _act("handle"), _act("scan"), _act("recv"), _act("handle"), _act("scan"),
+         _act("mkdir", "A"), _act("createwrite", "A", "f.json", 2), _act("query"), _act("query")]
+    return [{"hist": h, "cdirs": ["A"], "auto": True, "fresh": {"A": 2}, "missing": [], "directed": True}]
+
+
 def dedupe_auto(rows):
     """behaviours that differ only in where queries fall are one behaviour for the free-running
     pacing; keep one per controllable projection + schedule"""
@@ -764,7 +782,7 @@ def auto_family(prop, tier, seed, mc_cfgs, gen_runs, directed, extra_rule):
     if not rows:
         raise ToolFailure("vacuous: no behaviour generated")
     # every directed schedule twice: the harness runs odd-numbered rows in the world where "missing" is ENOTDIR
-    drows = [r for r in drows for _ in (0, 1)]
+    drows = [r for r in drows + pinned_auto_rows() for _ in (0, 1)]
     allrows = drows + rows
     import autotrace, shutil
     f = scratch_file("auto.ndjson")
